@@ -16,9 +16,13 @@ class Skip(Exception):
     pass
 
 
+DK = [0]       # offset of the generic point, set per configuration (cfg["dk"]): different seeds / thorough variants use different points
+
+
 def data(shape, lo=0.3, hi=2.7, k=0, cplx=False):
     """distinct generic values in (lo, hi): a golden-ratio sequence"""
     shape = tuple(shape)
+    k = k + DK[0]
     n = int(onp.prod(shape)) if shape else 1
     v = (lo + (hi - lo) * (((onp.arange(n) + 1 + k) * 0.6180339887498949) % 1.0)).reshape(shape)
     if cplx:
@@ -62,6 +66,7 @@ def axis_arg(ax):
 
 def build(cfg):
     fam = cfg["fam"]
+    DK[0] = int(cfg.get("dk", 0))
     return BUILDERS[fam](cfg)
 
 
